@@ -63,6 +63,9 @@ Stored(mu) == IF mu.s = "" THEN mu.x ELSE mu.s
 (***************************************************************************)
 (* Heap.                                                                   *)
 (***************************************************************************)
+\* classes of context objects (used by Isolation and Alias; the heap does not depend on the class)
+AllClasses == {"dict", "Context", "OrderedDict", "defaultdict", "UserDict"}
+QuickClasses == {"dict", "Context"}
 LCell(v) == [k |-> "L", v |-> v, m |-> <<>>]
 DCell(m) == [k |-> "D", v |-> <<>>, m |-> m]
 EmptyHeap == [h |-> <<>>, n |-> 1]
@@ -97,6 +100,8 @@ SnapCtx(h, id) == LET m == h[id].m IN
 SnapVal(h, v) == [d |-> h[v.d].v, c |-> SnapCtx(h, v.c)]
 DeepCopyVal(M, v) == AllocVal(M, SnapVal(M.h, v))
 DeepCopyCtx(M, id) == AllocCtx(M, SnapCtx(M.h, id))
+\* a copy of the top level only (what a __deepcopy__ of a dict subclass that rebuilds itself from its items does)
+ShallowCopyCtx(M, id) == [M |-> NewCell(M, DCell(M.h[id].m)), id |-> M.n]
 \* copy.copy-like: new list, new top-level dict, the nested dicts are shared
 ShallowCopyVal(M, v) == LET M1 == NewCell(M, LCell(M.h[v.d].v))
                             M2 == NewCell(M1, DCell(M.h[v.c].m))
